@@ -50,6 +50,29 @@ def make_schedule(zone: str, version: int, size: int) -> list:
     return days
 
 
+def make_tail_schedule(zone: str, version: int, kind: str) -> list:
+    """A family of short schedules (kind 'T2': 2 days x 4 switchpoints, 2 fragments; 'T3': 3 days x 5, 3 fragments) whose versions
+    differ ONLY in the very last setpoint: the first fragment of the compressed blob is identical across versions."""
+    ndays, npd = {"T2": (2, 4), "T3": (3, 5)}[kind]
+    z = 0 if zone == "HW" else int(zone, 16)
+    days = []
+    for d in range(ndays):
+        sps = []
+        for k in range(npd):
+            m = 480 + k * 90
+            sps.append({"time_of_day": f"{m // 60:02d}:{m % 60:02d}", "heat_setpoint": 15.0 + (z % 4) + k})
+        days.append({"day_of_week": d, "switchpoints": sps})
+    days[-1]["switchpoints"][-1]["heat_setpoint"] = round(5.0 + (version % 60) * 0.5, 2)
+    n = len(fragments(zone, days))
+    if n != int(kind[1]):
+        raise RuntimeError(f"harness: tail schedule {zone}/{version}/{kind} needs {n} fragments")
+    return days
+
+
+def schedule_for(zone: str, version: int, size) -> list:
+    return make_tail_schedule(zone, version, size) if isinstance(size, str) else make_schedule(zone, version, size)
+
+
 def fragments(zone: str, inner: list) -> list[str]:
     idx = "00" if zone == "HW" else zone
     return _lib()["to_fragz"]({"zone_idx": idx, "schedule": inner})
